@@ -17,13 +17,21 @@
    * `fix_labels_distinct`   : `.fixN`/`.fixupN` labels of different repairs differ
    * `legal_modes`           : C04's table theorem restated: a successful applicable `asm()` call
                                outside `unguardedRMW` selects a mode the 6502 has
-  Not proved: label discipline of the unmodelled generator (counters per construct); it is checked
-  on every compiled function by the independent front end (labels defined once, references
-  defined, every line assembles).
+   * `label_text_injective`, `gen_labels_nodup`, `gen_label_texts_nodup`, `gen_targets_defined`
+                             : label discipline of the generator itself on the fragment whose port is
+                               tied text-exactly to the real -O0 output (CV.GenStruct: blocks, if,
+                               if/else, while, do-while, for, any nesting): the label lines of the
+                               emitted code are pairwise distinct, also as text (`.ifend12` vs
+                               `.ifend1`+`2` cannot collide), and every branch or jump target is
+                               defined in the same code — for every program and generator state
+  Not proved: label discipline of the generator outside that fragment (`&&`/`||` `.ifstart` labels,
+  switch, break/continue); it is checked on every compiled function by the independent front end
+  (labels defined once, references defined, every line assembles).
 -/
 import CV.Inline
 import CV.Branch
 import CV.Props.C04
+import CV.Proofs.GenStructLemmas
 set_option linter.unusedSimpArgs false
 namespace CV.C13
 open CV
@@ -250,5 +258,482 @@ example : FreshFrom 1 [Line.label ".m"] := by
   have e1 : (".m" : String).toList.length = 2 := by decide
   simp [e1] at hlen
   omega
+
+end CV.C13
+
+/-! ## labels of the structured-control-flow generator (stage 2 of the C01 port)
+   `label_text_injective`, `gen_labels_nodup`, `gen_label_texts_nodup`, `gen_targets_defined`:
+   for EVERY program of the stage-2 fragment (any nesting) and every generator state, the label lines of the
+   emitted code are pairwise distinct — also as text — and every branch/jump target is defined in it. -/
+namespace CV.C13
+open CV CV.GenStruct CV.GenFlat
+
+/-- the digit suffix of `x ++ c :: digits` (c not a digit) read from the right is `digits` -/
+theorem takeWhile_digits_gen (xs ds : List Char) (c : Char) (hc : c.isDigit = false) (hd : ∀ c ∈ ds, c.isDigit = true) :
+    (xs ++ c :: ds).reverse.takeWhile Char.isDigit = ds.reverse := by
+  have : (xs ++ c :: ds).reverse = ds.reverse ++ (c :: xs.reverse) := by simp
+  rw [this, List.takeWhile_append_of_pos (by intro a ha; exact hd a (by simpa using ha))]
+  simp [List.takeWhile, hc]
+
+/-- every kind text ends in a letter: `init ++ [last]` with `last` not a digit -/
+theorem kind_text_shape (k : LKind) : ∃ (i : List Char) (c : Char), k.text.toList = i ++ [c] ∧ c.isDigit = false := by
+  cases k
+  · exact ⟨".ifen".toList, 'd', by decide, by decide⟩
+  · exact ⟨".els".toList, 'e', by decide, by decide⟩
+  · exact ⟨".ifher".toList, 'e', by decide, by decide⟩
+  · exact ⟨".whil".toList, 'e', by decide, by decide⟩
+  · exact ⟨".whileen".toList, 'd', by decide, by decide⟩
+  · exact ⟨".dowhil".toList, 'e', by decide, by decide⟩
+  · exact ⟨".dowhileen".toList, 'd', by decide, by decide⟩
+  · exact ⟨".fo".toList, 'r', by decide, by decide⟩
+  · exact ⟨".forupdat".toList, 'e', by decide, by decide⟩
+  · exact ⟨".foren".toList, 'd', by decide, by decide⟩
+
+theorem kind_text_inj (a b : LKind) (h : a.text = b.text) : a = b := by
+  cases a <;> cases b <;> first | rfl | (exfalso; revert h; decide)
+
+/-- label text determines the label: distinct (kind, counter) pairs never collide as text -/
+theorem label_text_injective (l₁ l₂ : Lbl) (h : l₁.text = l₂.text) : l₁ = l₂ := by
+  obtain ⟨k₁, n₁⟩ := l₁
+  obtain ⟨k₂, n₂⟩ := l₂
+  simp only [Lbl.text] at h
+  have h' := congrArg String.toList h
+  simp only [String.toList_append] at h'
+  obtain ⟨i₁, c₁, e₁, hc₁⟩ := kind_text_shape k₁
+  obtain ⟨i₂, c₂, e₂, hc₂⟩ := kind_text_shape k₂
+  rw [e₁, e₂] at h'
+  have f1 : i₁ ++ [c₁] ++ (toString n₁).toList = i₁ ++ c₁ :: (toString n₁).toList := by simp
+  have f2 : i₂ ++ [c₂] ++ (toString n₂).toList = i₂ ++ c₂ :: (toString n₂).toList := by simp
+  rw [f1, f2] at h'
+  have hd := congrArg (fun l => (List.reverse l).takeWhile Char.isDigit) h'
+  simp only [takeWhile_digits_gen _ _ _ hc₁ (digits_all n₁), takeWhile_digits_gen _ _ _ hc₂ (digits_all n₂)] at hd
+  have hdig : (toString n₁).toList = (toString n₂).toList := by
+    have := congrArg List.reverse hd
+    simpa using this
+  have hn : n₁ = n₂ := toString_inj _ _ (String.toList_inj.mp hdig)
+  subst hn
+  have hk : k₁.text.toList = k₂.text.toList := by
+    have := congrArg String.toList h
+    simp only [String.toList_append] at this
+    exact List.append_cancel_right this
+  have := kind_text_inj k₁ k₂ (String.toList_inj.mp hk)
+  subst this
+  rfl
+
+end CV.C13
+
+namespace CV.C13
+open CV CV.GenStruct CV.GenFlat
+
+theorem nodup_two {g g1 : GState} {c1 : List GLine} {r : List GLine × GState}
+    (h1 : Fresh g (c1, g1)) (h2 : Fresh g1 r) (n1 : (labels c1).Nodup) (n2 : (labels r.1).Nodup) :
+    (labels (c1 ++ r.1)).Nodup := by
+  rw [labels_append, List.nodup_append]
+  refine ⟨n1, n2, ?_⟩
+  intro a ha b hb hab
+  subst hab
+  have x : a.n ≤ g1.ctr a.kind.ctr := (h1.2 a ha).2
+  have y : g1.ctr a.kind.ctr < a.n := (h2.2 a hb).1
+  omega
+
+theorem branchInstr_nodup (g : GState) (op : COp) (label : Lbl) : (labels (branchInstr g op label).1).Nodup := by
+  cases op <;> simp [branchInstr]
+
+theorem genCond_nodup (g : GState) (c : Cond) (negate : Bool) (label : Lbl) : (labels (genCond g c negate label).1).Nodup := by
+  have hz : ∀ v op, (labels (zeroTest g v op label).1).Nodup := by
+    intro v op
+    unfold zeroTest
+    by_cases h : g.flags = some v <;> cases op <;> simp [h]
+  have hc : ∀ v right op, (labels (cmpTest g v right op label).1).Nodup := by
+    intro v right op
+    simp [cmpTest, branchInstr_nodup]
+  cases c with
+  | cmp op a b =>
+    simp only [genCond, genCondEx]
+    split
+    · simp
+    · split
+      · exact hz _ _
+      · exact hc _ _ _
+  | truth v => exact hz _ _
+  | nottruth v => exact hz _ _
+
+/-- a label allocated at or before `gx` is not defined by code generated from `gx` on -/
+theorem not_in_fresh {gx : GState} {r : List GLine × GState} {l : Lbl} (hf : Fresh gx r)
+    (hl : l.n ≤ gx.ctr l.kind.ctr) : l ∉ labels r.1 := by
+  intro h
+  have := (hf.2 l h).1
+  omega
+
+theorem le_ctr {g : GState} {r : List GLine × GState} (h : Fresh g r) (c : Ctr) : g.ctr c ≤ r.2.ctr c := h.1 c
+
+/-- the labels defined by the code of a statement are pairwise distinct -/
+theorem gen_labels_nodup (st : SStmt) : ∀ g : GState, (labels (gen g st).1).Nodup := by
+  induction st with
+  | flat s => intro g; simp [gen, genFlat, labels_flatLines]
+  | skip => intro g; simp [gen]
+  | seq a b iha ihb =>
+    intro g
+    simp only [gen]
+    exact nodup_two (gen_fresh a g) (gen_fresh b _) (iha g) (ihb _)
+  | ifThen c t iht =>
+    intro g
+    simp only [gen]
+    rcases hcc : genCond { g with cIf := g.cIf + 1 } c true ⟨.ifend, g.cIf + 1⟩ with ⟨cc, g1⟩
+    rcases hct : gen g1 t with ⟨ct, g2⟩
+    have hc : Fresh { g with cIf := g.cIf + 1 } (cc, g1) := hcc ▸ genCond_fresh ..
+    have ht : Fresh g1 (ct, g2) := hct ▸ gen_fresh t g1
+    have nc : (labels cc).Nodup := by have := genCond_nodup { g with cIf := g.cIf + 1 } c true ⟨.ifend, g.cIf + 1⟩; rwa [hcc] at this
+    have nt : (labels ct).Nodup := by have := iht g1; rwa [hct] at this
+    have h2 := nodup_two hc ht nc nt
+    have k1 := le_ctr hc .cIf
+    simp [GState.ctr] at k1
+    dsimp only at h2 ⊢
+    rw [labels_append, List.nodup_append]
+    refine ⟨h2, by simp, ?_⟩
+    intro a ha b hb hab
+    simp at hb
+    subst hab; subst hb
+    simp at ha
+    rcases ha with ha | ha
+    · exact not_in_fresh hc (by simp [LKind.ctr, GState.ctr]) ha
+    · exact not_in_fresh ht (by simp [LKind.ctr, GState.ctr]; omega) ha
+  | ifElse c t e iht ihe =>
+    intro g
+    simp only [gen]
+    rcases hcc : genCond { g with cIf := g.cIf + 1 } c true ⟨.else_, g.cIf + 1⟩ with ⟨cc, g1⟩
+    rcases hct : gen g1 t with ⟨ct, g2⟩
+    rcases hce : gen { g2 with flags := g1.flags } e with ⟨ce, g3⟩
+    have hc : Fresh { g with cIf := g.cIf + 1 } (cc, g1) := hcc ▸ genCond_fresh ..
+    have ht : Fresh g1 (ct, g2) := hct ▸ gen_fresh t g1
+    have he : Fresh g2 (ce, g3) := by
+      have := gen_fresh e { g2 with flags := g1.flags }
+      rw [hce, fresh_flags_left] at this
+      exact this
+    have nc : (labels cc).Nodup := by have := genCond_nodup { g with cIf := g.cIf + 1 } c true ⟨.else_, g.cIf + 1⟩; rwa [hcc] at this
+    have nt : (labels ct).Nodup := by have := iht g1; rwa [hct] at this
+    have ne : (labels ce).Nodup := by have := ihe { g2 with flags := g1.flags }; rwa [hce] at this
+    have k1 := le_ctr hc .cIf
+    have k2 := le_ctr ht .cIf
+    simp [GState.ctr] at k1 k2
+    have h3 : (labels (cc ++ ct ++ ce)).Nodup := nodup_two (fresh_append hc ht) he (nodup_two hc ht nc nt) ne
+    dsimp only at h3 ⊢
+    -- the two own labels are distinct from each other and from everything generated inside
+    have key : ∀ l : Lbl, l.n = g.cIf + 1 → l.kind.ctr = .cIf → l ∉ labels (cc ++ ct ++ ce) := by
+      intro l hn hk hin
+      simp at hin
+      rcases hin with hin | hin | hin
+      · exact not_in_fresh hc (by simp [hk, hn, GState.ctr]) hin
+      · exact not_in_fresh ht (by simp [hk, hn, GState.ctr]; omega) hin
+      · exact not_in_fresh he (by simp [hk, hn, GState.ctr]; omega) hin
+    have hperm : (labels (cc ++ ct ++ [GLine.jmp ⟨.ifend, g.cIf + 1⟩, .lab ⟨.else_, g.cIf + 1⟩] ++ ce ++ [.lab ⟨.ifend, g.cIf + 1⟩])).Perm
+        ((⟨.else_, g.cIf + 1⟩ : Lbl) :: ⟨.ifend, g.cIf + 1⟩ :: labels (cc ++ ct ++ ce)) := by
+      simp only [labels_append, labels_jmp, labels_lab, labels_nil]
+      have : ∀ (A B C : List Lbl) (x y : Lbl), (A ++ B ++ [x] ++ C ++ [y]).Perm (x :: y :: (A ++ B ++ C)) := by
+        intro A B C x y
+        have e1 : A ++ B ++ [x] ++ C ++ [y] = (A ++ B) ++ (x :: (C ++ [y])) := by simp
+        rw [e1]
+        refine (List.perm_middle).trans ?_
+        refine List.Perm.cons x ?_
+        have e2 : A ++ B ++ (C ++ [y]) = (A ++ B ++ C) ++ [y] := by simp
+        rw [e2]
+        exact List.perm_append_singleton y _
+      exact this _ _ _ _ _
+    rw [hperm.nodup_iff]
+    refine List.nodup_cons.mpr ⟨?_, List.nodup_cons.mpr ⟨key _ rfl rfl, h3⟩⟩
+    intro hin
+    simp only [List.mem_cons] at hin
+    rcases hin with hin | hin
+    · simp at hin
+    · exact key _ rfl rfl hin
+  | «while» c b ihb =>
+    intro g
+    simp only [gen]
+    rcases hcc : genCond { g with cWhile := g.cWhile + 1, flags := none } c true ⟨.whileend, g.cWhile + 1⟩ with ⟨cc, g1⟩
+    rcases hcb : gen g1 b with ⟨cb, g2⟩
+    have hc : Fresh { g with cWhile := g.cWhile + 1, flags := none } (cc, g1) := hcc ▸ genCond_fresh ..
+    have hb : Fresh g1 (cb, g2) := hcb ▸ gen_fresh b g1
+    have nc : (labels cc).Nodup := by
+      have := genCond_nodup { g with cWhile := g.cWhile + 1, flags := none } c true ⟨.whileend, g.cWhile + 1⟩; rwa [hcc] at this
+    have nb : (labels cb).Nodup := by have := ihb g1; rwa [hcb] at this
+    have k1 := le_ctr hc .cWhile
+    simp [GState.ctr] at k1
+    have h2 : (labels (cc ++ cb)).Nodup := nodup_two hc hb nc nb
+    dsimp only at h2 ⊢
+    have key : ∀ l : Lbl, l.n = g.cWhile + 1 → l.kind.ctr = .cWhile → l ∉ labels (cc ++ cb) := by
+      intro l hn hk hin
+      simp at hin
+      rcases hin with hin | hin
+      · exact not_in_fresh hc (by simp [hk, hn, GState.ctr]) hin
+      · exact not_in_fresh hb (by simp [hk, hn, GState.ctr]; omega) hin
+    have hperm : (labels ([GLine.lab ⟨.while_, g.cWhile + 1⟩] ++ cc ++ cb ++ [GLine.jmp ⟨.while_, g.cWhile + 1⟩, .lab ⟨.whileend, g.cWhile + 1⟩])).Perm
+        ((⟨.while_, g.cWhile + 1⟩ : Lbl) :: ⟨.whileend, g.cWhile + 1⟩ :: labels (cc ++ cb)) := by
+      simp only [labels_append, labels_jmp, labels_lab, labels_nil, List.singleton_append, List.cons_append, List.nil_append]
+      refine List.Perm.cons _ ?_
+      have e2 : labels cc ++ labels cb ++ [(⟨.whileend, g.cWhile + 1⟩ : Lbl)] = (labels cc ++ labels cb) ++ [⟨.whileend, g.cWhile + 1⟩] := rfl
+      rw [e2]
+      exact List.perm_append_singleton _ _
+    rw [hperm.nodup_iff]
+    refine List.nodup_cons.mpr ⟨?_, List.nodup_cons.mpr ⟨key _ rfl rfl, h2⟩⟩
+    intro hin
+    simp only [List.mem_cons] at hin
+    rcases hin with hin | hin
+    · simp at hin
+    · exact key _ rfl rfl hin
+  | doWhile b c ihb =>
+    intro g
+    simp only [gen]
+    rcases hcb : gen { g with cWhile := g.cWhile + 1, flags := none } b with ⟨cb, g1⟩
+    rcases hcc : genCond g1 c false ⟨.dowhile, g.cWhile + 1⟩ with ⟨cc, g2⟩
+    have hb : Fresh { g with cWhile := g.cWhile + 1, flags := none } (cb, g1) := hcb ▸ gen_fresh b _
+    have hc : Fresh g1 (cc, g2) := hcc ▸ genCond_fresh ..
+    have nb : (labels cb).Nodup := by have := ihb { g with cWhile := g.cWhile + 1, flags := none }; rwa [hcb] at this
+    have nc : (labels cc).Nodup := by have := genCond_nodup g1 c false ⟨.dowhile, g.cWhile + 1⟩; rwa [hcc] at this
+    have k1 := le_ctr hb .cWhile
+    simp [GState.ctr] at k1
+    have h2 : (labels (cb ++ cc)).Nodup := nodup_two hb hc nb nc
+    dsimp only at h2 ⊢
+    have key : ∀ l : Lbl, l.n = g.cWhile + 1 → l.kind.ctr = .cWhile → l ∉ labels (cb ++ cc) := by
+      intro l hn hk hin
+      simp at hin
+      rcases hin with hin | hin
+      · exact not_in_fresh hb (by simp [hk, hn, GState.ctr]) hin
+      · exact not_in_fresh hc (by simp [hk, hn, GState.ctr]; omega) hin
+    have hperm : (labels ([GLine.lab ⟨.dowhile, g.cWhile + 1⟩] ++ cb ++ cc ++ [GLine.lab ⟨.dowhileend, g.cWhile + 1⟩])).Perm
+        ((⟨.dowhile, g.cWhile + 1⟩ : Lbl) :: ⟨.dowhileend, g.cWhile + 1⟩ :: labels (cb ++ cc)) := by
+      simp only [labels_append, labels_lab, labels_nil, List.singleton_append, List.cons_append, List.nil_append]
+      refine List.Perm.cons _ ?_
+      exact List.perm_append_singleton _ _
+    rw [hperm.nodup_iff]
+    refine List.nodup_cons.mpr ⟨?_, List.nodup_cons.mpr ⟨key _ rfl rfl, h2⟩⟩
+    intro hin
+    simp only [List.mem_cons] at hin
+    rcases hin with hin | hin
+    · simp at hin
+    · exact key _ rfl rfl hin
+  | «for» i c u b ihb =>
+    intro g
+    simp only [gen, genFlat]
+    rcases hc1 : genCond { g with cFor := g.cFor + 1, flags := some (target i) } c true ⟨.forend, g.cFor + 1⟩ with ⟨c1, g2⟩
+    rcases hcb : gen { g2 with flags := none } b with ⟨cb, g3⟩
+    rcases hc2 : genCond { g3 with flags := some (target u) } c false ⟨.for_, g.cFor + 1⟩ with ⟨c2, g5⟩
+    have hf1 : Fresh { g with cFor := g.cFor + 1, flags := some (target i) } (c1, g2) := hc1 ▸ genCond_fresh ..
+    have hfb : Fresh g2 (cb, g3) := by
+      have := gen_fresh b { g2 with flags := none }
+      rw [hcb, fresh_flags_left] at this
+      exact this
+    have hf2 : Fresh g3 (c2, g5) := by
+      have : Fresh { g3 with flags := some (target u) } (c2, g5) := hc2 ▸ genCond_fresh ..
+      rwa [fresh_flags_left] at this
+    have n1 : (labels c1).Nodup := by
+      have := genCond_nodup { g with cFor := g.cFor + 1, flags := some (target i) } c true ⟨.forend, g.cFor + 1⟩; rwa [hc1] at this
+    have nb : (labels cb).Nodup := by have := ihb { g2 with flags := none }; rwa [hcb] at this
+    have n2 : (labels c2).Nodup := by
+      have := genCond_nodup { g3 with flags := some (target u) } c false ⟨.for_, g.cFor + 1⟩; rwa [hc2] at this
+    have k1 := le_ctr hf1 .cFor
+    have k2 := le_ctr hfb .cFor
+    simp [GState.ctr] at k1 k2
+    have h3 : (labels (c1 ++ cb ++ c2)).Nodup := nodup_two (fresh_append hf1 hfb) hf2 (nodup_two hf1 hfb n1 nb) n2
+    dsimp only at h3 ⊢
+    have key : ∀ l : Lbl, l.n = g.cFor + 1 → l.kind.ctr = .cFor → l ∉ labels (c1 ++ cb ++ c2) := by
+      intro l hn hk hin
+      simp at hin
+      rcases hin with hin | hin | hin
+      · exact not_in_fresh hf1 (by simp [hk, hn, GState.ctr]) hin
+      · exact not_in_fresh hfb (by simp [hk, hn, GState.ctr]; omega) hin
+      · exact not_in_fresh hf2 (by simp [hk, hn, GState.ctr]; omega) hin
+    have hperm : (labels (flatLines i ++ c1 ++ [GLine.lab ⟨.for_, g.cFor + 1⟩] ++ cb ++ [GLine.lab ⟨.forupdate, g.cFor + 1⟩] ++ flatLines u ++ c2
+          ++ [GLine.lab ⟨.forend, g.cFor + 1⟩])).Perm
+        ((⟨.for_, g.cFor + 1⟩ : Lbl) :: ⟨.forupdate, g.cFor + 1⟩ :: ⟨.forend, g.cFor + 1⟩ :: labels (c1 ++ cb ++ c2)) := by
+      simp only [labels_append, labels_lab, labels_nil, labels_flatLines, List.nil_append, List.append_nil]
+      have : ∀ (A B C : List Lbl) (x y z : Lbl), (A ++ [x] ++ B ++ [y] ++ C ++ [z]).Perm (x :: y :: z :: (A ++ B ++ C)) := by
+        intro A B C x y z
+        have e1 : A ++ [x] ++ B ++ [y] ++ C ++ [z] = A ++ (x :: (B ++ [y] ++ C ++ [z])) := by simp
+        rw [e1]
+        refine (List.perm_middle).trans (List.Perm.cons x ?_)
+        have e2 : A ++ (B ++ [y] ++ C ++ [z]) = (A ++ B) ++ (y :: (C ++ [z])) := by simp
+        rw [e2]
+        refine (List.perm_middle).trans (List.Perm.cons y ?_)
+        have e3 : A ++ B ++ (C ++ [z]) = (A ++ B ++ C) ++ [z] := by simp
+        rw [e3]
+        exact List.perm_append_singleton z _
+      exact this _ _ _ _ _ _
+    rw [hperm.nodup_iff]
+    refine List.nodup_cons.mpr ⟨?_, List.nodup_cons.mpr ⟨?_, List.nodup_cons.mpr ⟨key _ rfl rfl, h3⟩⟩⟩
+    · intro hin
+      simp only [List.mem_cons] at hin
+      rcases hin with hin | hin | hin
+      · simp at hin
+      · simp at hin
+      · exact key _ rfl rfl hin
+    · intro hin
+      simp only [List.mem_cons] at hin
+      rcases hin with hin | hin
+      · simp at hin
+      · exact key _ rfl rfl hin
+
+end CV.C13
+
+namespace CV.C13
+open CV CV.GenStruct CV.GenFlat
+
+/-- as text: no two label lines of a statement's code carry the same label -/
+theorem gen_label_texts_nodup (st : SStmt) (g : GState) : ((labels (gen g st).1).map Lbl.text).Nodup := by
+  have h := gen_labels_nodup st g
+  unfold List.Nodup at h ⊢
+  exact List.Pairwise.map Lbl.text (fun a b hab e => hab (label_text_injective a b e)) h
+
+/-! ### every branch of the generated code has its target in the generated code -/
+
+def targets : List GLine → List Lbl
+  | [] => []
+  | .br _ l :: r => l :: targets r
+  | .jmp l :: r => l :: targets r
+  | _ :: r => targets r
+
+@[simp] theorem targets_nil : targets [] = [] := rfl
+@[simp] theorem targets_lab (l : Lbl) (r : List GLine) : targets (.lab l :: r) = targets r := rfl
+@[simp] theorem targets_ins (mn : Mn) (a : Option Atom) (r : List GLine) : targets (.ins mn a :: r) = targets r := rfl
+@[simp] theorem targets_br (mn : Mn) (l : Lbl) (r : List GLine) : targets (.br mn l :: r) = l :: targets r := rfl
+@[simp] theorem targets_jmp (l : Lbl) (r : List GLine) : targets (.jmp l :: r) = l :: targets r := rfl
+
+@[simp] theorem targets_append (p q : List GLine) : targets (p ++ q) = targets p ++ targets q := by
+  induction p with
+  | nil => rfl
+  | cons x xs ih => cases x <;> simp [targets, ih]
+
+theorem targets_flatLines (s : FStmt) : targets (flatLines s) = [] := by
+  unfold flatLines
+  generalize template (none : Option Atom) (fun a => some a) s = t
+  induction t with
+  | nil => rfl
+  | cons x xs ih => simpa using ih
+
+/-- condition code only branches to the label it was given or to a label it defines itself -/
+theorem genCond_targets (g : GState) (c : Cond) (negate : Bool) (label : Lbl) :
+    ∀ l ∈ targets (genCond g c negate label).1, l = label ∨ l ∈ labels (genCond g c negate label).1 := by
+  have hb : ∀ g' op, ∀ l ∈ targets (branchInstr g' op label).1, l = label ∨ l ∈ labels (branchInstr g' op label).1 := by
+    intro g' op l hl
+    cases op <;> simp [branchInstr] at hl ⊢ <;> (try exact hl)
+    rcases hl with hl | hl
+    · exact Or.inr hl
+    · exact Or.inl hl
+  have hz : ∀ v op, ∀ l ∈ targets (zeroTest g v op label).1, l = label ∨ l ∈ labels (zeroTest g v op label).1 := by
+    intro v op l hl
+    unfold zeroTest at hl ⊢
+    by_cases h : g.flags = some v <;> cases op <;> simp [h] at hl ⊢ <;> exact hl
+  have hc : ∀ v right op, ∀ l ∈ targets (cmpTest g v right op label).1, l = label ∨ l ∈ labels (cmpTest g v right op label).1 := by
+    intro v right op l hl
+    simp [cmpTest] at hl ⊢
+    exact hb _ _ l hl
+  cases c with
+  | cmp op a b =>
+    simp only [genCond, genCondEx]
+    split
+    · intro l hl; simp at hl
+    · split
+      · exact hz _ _
+      · exact hc _ _ _
+  | truth v => exact hz _ _
+  | nottruth v => exact hz _ _
+
+/-- no branch or jump of a statement's code leaves the code: every target is a label defined in it -/
+theorem gen_targets_defined (st : SStmt) : ∀ g : GState, ∀ l ∈ targets (gen g st).1, l ∈ labels (gen g st).1 := by
+  induction st with
+  | flat s => intro g l hl; simp [gen, genFlat, targets_flatLines] at hl
+  | skip => intro g l hl; simp [gen] at hl
+  | seq a b iha ihb =>
+    intro g l hl
+    simp only [gen, targets_append, labels_append, List.mem_append] at hl ⊢
+    rcases hl with hl | hl
+    · exact Or.inl (iha g l hl)
+    · exact Or.inr (ihb _ l hl)
+  | ifThen c t iht =>
+    intro g l hl
+    simp only [gen] at hl ⊢
+    have hc := genCond_targets { g with cIf := g.cIf + 1 } c true ⟨.ifend, g.cIf + 1⟩
+    rcases hcc : genCond { g with cIf := g.cIf + 1 } c true ⟨.ifend, g.cIf + 1⟩ with ⟨cc, g1⟩
+    rw [hcc] at hc hl
+    have ht := iht g1
+    rcases hct : gen g1 t with ⟨ct, g2⟩
+    rw [hct] at ht hl
+    simp at hl ⊢
+    rcases hl with hl | hl
+    · rcases hc l hl with h | h
+      · exact Or.inr (Or.inr h)
+      · exact Or.inl h
+    · exact Or.inr (Or.inl (ht l hl))
+  | ifElse c t e iht ihe =>
+    intro g l hl
+    simp only [gen] at hl ⊢
+    have hc := genCond_targets { g with cIf := g.cIf + 1 } c true ⟨.else_, g.cIf + 1⟩
+    rcases hcc : genCond { g with cIf := g.cIf + 1 } c true ⟨.else_, g.cIf + 1⟩ with ⟨cc, g1⟩
+    rw [hcc] at hc hl
+    have ht := iht g1
+    rcases hct : gen g1 t with ⟨ct, g2⟩
+    rw [hct] at ht hl
+    have he := ihe { g2 with flags := g1.flags }
+    rcases hce : gen { g2 with flags := g1.flags } e with ⟨ce, g3⟩
+    rw [hce] at he hl
+    simp at hl ⊢
+    rcases hl with hl | hl | hl | hl
+    · rcases hc l hl with h | h
+      · exact Or.inr (Or.inr (Or.inl h))
+      · exact Or.inl h
+    · exact Or.inr (Or.inl (ht l hl))
+    · exact Or.inr (Or.inr (Or.inr (Or.inr hl)))
+    · exact Or.inr (Or.inr (Or.inr (Or.inl (he l hl))))
+  | «while» c b ihb =>
+    intro g l hl
+    simp only [gen] at hl ⊢
+    have hc := genCond_targets { g with cWhile := g.cWhile + 1, flags := none } c true ⟨.whileend, g.cWhile + 1⟩
+    rcases hcc : genCond { g with cWhile := g.cWhile + 1, flags := none } c true ⟨.whileend, g.cWhile + 1⟩ with ⟨cc, g1⟩
+    rw [hcc] at hc hl
+    have hb := ihb g1
+    rcases hcb : gen g1 b with ⟨cb, g2⟩
+    rw [hcb] at hb hl
+    simp at hl ⊢
+    rcases hl with hl | hl | hl
+    · rcases hc l hl with h | h
+      · exact Or.inr (Or.inr (Or.inr h))
+      · exact Or.inr (Or.inl h)
+    · exact Or.inr (Or.inr (Or.inl (hb l hl)))
+    · exact Or.inl hl
+  | doWhile b c ihb =>
+    intro g l hl
+    simp only [gen] at hl ⊢
+    have hb := ihb { g with cWhile := g.cWhile + 1, flags := none }
+    rcases hcb : gen { g with cWhile := g.cWhile + 1, flags := none } b with ⟨cb, g1⟩
+    rw [hcb] at hb hl
+    have hc := genCond_targets g1 c false ⟨.dowhile, g.cWhile + 1⟩
+    rcases hcc : genCond g1 c false ⟨.dowhile, g.cWhile + 1⟩ with ⟨cc, g2⟩
+    rw [hcc] at hc hl
+    simp at hl ⊢
+    rcases hl with hl | hl
+    · exact Or.inr (Or.inl (hb l hl))
+    · rcases hc l hl with h | h
+      · exact Or.inl h
+      · exact Or.inr (Or.inr (Or.inl h))
+  | «for» i c u b ihb =>
+    intro g l hl
+    simp only [gen, genFlat] at hl ⊢
+    have h1 := genCond_targets { g with cFor := g.cFor + 1, flags := some (target i) } c true ⟨.forend, g.cFor + 1⟩
+    rcases hc1 : genCond { g with cFor := g.cFor + 1, flags := some (target i) } c true ⟨.forend, g.cFor + 1⟩ with ⟨c1, g2⟩
+    rw [hc1] at h1 hl
+    have hb := ihb { g2 with flags := none }
+    rcases hcb : gen { g2 with flags := none } b with ⟨cb, g3⟩
+    rw [hcb] at hb hl
+    have h2 := genCond_targets { g3 with flags := some (target u) } c false ⟨.for_, g.cFor + 1⟩
+    rcases hc2 : genCond { g3 with flags := some (target u) } c false ⟨.for_, g.cFor + 1⟩ with ⟨c2, g5⟩
+    rw [hc2] at h2 hl
+    simp [targets_flatLines, labels_flatLines] at hl ⊢
+    rcases hl with hl | hl | hl
+    · rcases h1 l hl with h | h
+      · exact Or.inr (Or.inr (Or.inr (Or.inr (Or.inr h))))
+      · exact Or.inl h
+    · exact Or.inr (Or.inr (Or.inl (hb l hl)))
+    · rcases h2 l hl with h | h
+      · exact Or.inr (Or.inl h)
+      · exact Or.inr (Or.inr (Or.inr (Or.inr (Or.inl h))))
 
 end CV.C13
